@@ -582,6 +582,24 @@ SCENARIOS += ['dead_outputs_dyndep']     # 56
 CHECKS['C18']['jobs'] += [dict(j, name='dead_outputs_dyndep_cleandead') for j in _tool_jobs([56], mode='MODE_CLEANDEAD', reach=('cleandead', 'recompacted'), bounds='full build of a dyndep shape (an implicit output and an input known only through the dyndep file, both recorded in the build log), then one statement removed from the manifest; optionally -t recompact and/or a build first; ninja -n -t cleandead, ninja -t cleandead, build')]
 CHECKS['C18']['level_text'] += ' A second cleandead job uses a dyndep shape: files that are in the graph only through a dyndep file (an implicit output it declares) are recorded in the build log and must survive cleandead.'
 
+CHECKS['C05']['jobs'].append(dict(name='exit_status', harness='c05_exitstatus.cc', units=list(_U), reach=['failed', 'succeeded', 'interrupted', 'killed'],
+    bounds='every 16-bit wait status that waitpid() can report for a terminated child (exit code 0..255; signal 1..127 with or without core dump) through the real ParseExitStatus'))
+CHECKS['C05']['level_text'] += ' A kernel job passes every wait status (symbolic 16-bit value) through the real ParseExitStatus: an exit code comes back unchanged, only SIGINT/SIGTERM/SIGHUP deaths count as interrupts, any other signal gives a non-zero failure status.'
+for _j in CHECKS['C05']['jobs']:
+    if _j['name'] == 'wide2_codes_procs': _j['thorough_only'] = True      # (expensive; the exit_status kernel covers ParseExitStatus on every value in the quick tier)
+
+_DIRTY = dict(name='dirty_kernel', harness='c01_dirty.cc', units=['graph', 'state', 'eval_env', 'build_log', 'debug_flags', 'dyndep', 'dyndep_parser', 'parser', 'lexer', 'depfile_parser', 'deps_log', 'disk_interface', 'version'] + _U, hooks=['const_hash'],
+    reach=['must-run', 'up-to-date', 'equal-stamps-up-to-date'],
+    bounds='one statement with two explicit, one implicit and one order-only source and one output; every file missing or stamped 1..4 in any order, ties included; restat and generator flags; log record absent / present with any recorded mtime 0..4 and the current or another command')
+CHECKS['C01']['jobs'].append(dict(_DIRTY)); CHECKS['C03']['jobs'].append(dict(_DIRTY))
+_DIRTY_P = dict(_DIRTY, name='dirty_kernel_phony', defines=['PHONY_ALIAS'], bounds=_DIRTY['bounds'] + '; the two explicit sources reach the statement through a phony alias without a file of its own (phony mtime pass-through)')
+CHECKS['C01']['jobs'].append(dict(_DIRTY_P)); CHECKS['C03']['jobs'].append(dict(_DIRTY_P))
+_DIRTY_D = dict(_DIRTY, name='dirty_kernel_deps', defines=['DEPS_LOG'], reach=['must-run', 'up-to-date', 'equal-stamps-up-to-date'], bounds=_DIRTY['bounds'] + '; deps = gcc with a header known only from the deps log: record absent / present with any recorded mtime 0..4, the header missing or stamped 1..4')
+CHECKS['C10']['jobs'].append(dict(_DIRTY_D)); CHECKS['C01']['jobs'].append(dict(_DIRTY_D))
+CHECKS['C10']['level_text'] += ' A kernel job decides the up-to-date rule of one deps=gcc statement for every combination of time stamps (ties included) of its declared inputs, its output, a header known only from the deps log, the deps record and the build-log record: the recorded header must count exactly like a declared implicit input whenever the record exists and is not older than the output, and the statement must run otherwise.'
+_DK = ' A kernel job decides the up-to-date rule of a single statement (DependencyScan::RecomputeDirty with the real build log) for every combination of time stamps - ties included, which the strictly increasing clock of the history jobs never produces -, restat / generator flags and log states, against the rule stated from scratch.'
+CHECKS['C01']['level_text'] += _DK; CHECKS['C03']['level_text'] += _DK
+
 # ---- the thorough tier as it is actually run: every job of the quick tier at the same bounds, plus the thorough_only jobs (heavier shapes, built-then-perturbed
 # states, all-subsets edits), plus deeper bounds for the byte-level kernels (C08 C09 C13 C14 C15 C16 C19/json).  Three-invocation histories of *every* pipeline shape
 # (the first version's thorough tier) take many hours on 16 cores and were never run to completion, so they are not what `--tier thorough` means any more; the
